@@ -532,25 +532,26 @@ def _subgraph_stereo_feasibility(
 def _stereo_change_feasibility(
     u: AtomId, v: AtomId, state: _State, params: _Parameters
 ) -> bool:
-    s1 = {
-        (
-            stereo_change,
-            stereo.__class__(
+    # keyed by (change, centre): descriptors with undefined parity over the
+    # same atoms are equal and hash alike even if their centres differ
+    s1 = {}
+    for stereo_change, stereo_list in params.g1_stereo_changes[u].items():
+        for stereo in stereo_list:
+            if stereo is None or not all(  # type: ignore
+                [a is None or a in state.mapping for a in stereo.atoms]
+            ):
+                continue
+            mapped = stereo.__class__(
                 atoms=tuple([
                     None if a is None else state.mapping[a]
                     for a in stereo.atoms
                 ]),
                 parity=stereo.parity,
-            ),
-        )
-        for stereo_change, stereo_list in params.g1_stereo_changes[u].items()
-        for stereo in stereo_list
-        if stereo is not None # type: ignore
-        and all([a is None or a in state.mapping for a in stereo.atoms])
-    }
+            )
+            s1[(stereo_change, _stereo_centre(mapped))] = mapped
 
     s2 = {
-        (stereo_change, stereo)
+        (stereo_change, _stereo_centre(stereo)): stereo
         for stereo_change, stereo_list in params.g2_stereo_changes[v].items()
         for stereo in stereo_list
         if stereo is not None # type: ignore
@@ -559,9 +560,9 @@ def _stereo_change_feasibility(
         ])
     }
 
-    if s1 == s2:
-        return True
-    return False
+    if s1.keys() != s2.keys():
+        return False
+    return all(stereo == s2[key] for key, stereo in s1.items())
 
 def _subgraph_stereo_change_feasibility(
     u: AtomId, v: AtomId, state: _State, params: _Parameters
